@@ -75,6 +75,7 @@ func (t *task) Result() interface{} {
 
 func (t *task) reply(result interface{}) {
 	if t != nil {
+		verifReply(t, result)
 		t.result = result
 		if t.done != nil && !isClosed(t.done) {
 			close(t.done)
